@@ -23,6 +23,13 @@ structure SFrame where
     renders it -/
 def idText (n : Nat) : String := "id:" ++ toString n
 
+def sRegister : List Char := ['r', 'e', 'g', 'i', 's', 't', 'e', 'r']
+def sUnregister : List Char := ['u', 'n', 'r', 'e', 'g', 'i', 's', 't', 'e', 'r']
+def sUnregistered : List Char := ['u', 'n', 'r', 'e', 'g', 'i', 's', 't', 'e', 'r', 'e', 'd']
+
+/-- `format!("{}.register", name)` -/
+def topicOf (name : String) (suffix : List Char) : String := name ++ String.ofList ('.' :: suffix)
+
 def metaGet (m : Option (List (String × String))) (k : String) : Option String :=
   match m with
   | none => none
@@ -78,7 +85,7 @@ def returnFrame (cfg : HCfg) (trigger : SFrame) (json : String) : SFrame :=
     ttl := cfg.ttl, content := some json }
 
 def unregistered (cfg : HCfg) (trigger : SFrame) (err : Option String) : SFrame :=
-  { topic := cfg.name ++ ".unregistered", ctx := cfg.ctx, id := 0,
+  { topic := topicOf cfg.name sUnregistered, ctx := cfg.ctx, id := 0,
     mdata := some ([("handler_id", idText cfg.id), ("frame_id", idText trigger.id)] ++
       (match err with | some e => [("error", e)] | none => [])) }
 
@@ -87,7 +94,7 @@ inductive HState where
   deriving Repr, DecidableEq
 
 def isRegTraffic (cfg : HCfg) (f : SFrame) : Bool :=
-  f.topic = cfg.name ++ ".register" || f.topic = cfg.name ++ ".unregister"
+  f.topic = topicOf cfg.name sRegister || f.topic = topicOf cfg.name sUnregister
 
 def isOwn (cfg : HCfg) (f : SFrame) : Bool := metaGet f.mdata "handler_id" = some (idText cfg.id)
 
@@ -135,5 +142,24 @@ def run {σ : Type} (cfg : HCfg) (eval : σ → SFrame → σ × EvalRes) :
     let (st1, env1, out1, inv) := step cfg eval st env f
     let (st2, env2, out2, invs) := run cfg eval st1 env1 rest
     (st2, env2, out1 ++ out2, (if inv then [(env, f)] else []) ++ invs)
+
+/-- `resume_from` of the handler's configuration -/
+inductive Resume where
+  | head | tail | after (id : Nat)
+  deriving Repr, DecidableEq
+
+/-- what the instance's context-scoped follow read hands it (`configure_read_options`, and
+    C02/C03/C06 for the store): the frames of its context stored when it subscribed (`hist`,
+    after the resume point), then the threshold marker, then the frames of its context appended
+    afterwards (`live`); a tail subscription has neither history nor marker -/
+def subscription (cfg : HCfg) (resume : Resume) (hist live : List SFrame) (thr : SFrame) : List SFrame :=
+  match resume with
+  | .tail => live.filter (fun f => f.ctx = cfg.ctx)
+  | .head => hist.filter (fun f => f.ctx = cfg.ctx) ++ thr :: live.filter (fun f => f.ctx = cfg.ctx)
+  | .after id => (hist.filter (fun f => f.ctx = cfg.ctx)).filter (fun f => id < f.id) ++
+      thr :: live.filter (fun f => f.ctx = cfg.ctx)
+
+/-- is the closure run for this frame (by a running instance)? -/
+def isInvoke (cfg : HCfg) (f : SFrame) : Bool := !isRegTraffic cfg f && !isOwn cfg f
 
 end Xs.Serve
